@@ -1086,18 +1086,17 @@ def r06_21(ctx: Ctx, rule: str = "R06.21") -> None:
     resets = [q.node_for(f, n) for n in walk(f.node) if isinstance(n, ast.Assign) and norm(n.targets[0]) == "self.main_streams" and isinstance(n.value, ast.Constant) and n.value.value is None]
     ctx.floor(rule, len(stores), 1, "`self.main_streams = ...` in _extract_header_info")
     for part in ("unpackinfo", "packinfo"):
-        ok = False
+        # every normal way from the store to the end of the function passes a reset of main_streams, or an edge on which `part is not None` is known
+        good = []
         for t in cfg.nodes:
             if t.kind != "test":
                 continue
-            for sub in ast.walk(t.ast):
-                nt = q.is_none_test(sub)
-                if nt is None or norm(nt[0]) != f"self.main_streams.{part}":
-                    continue
-                # the arm on which the part is missing: for `a is None or b` / `a is None` the true edge; for `is not None` the false edge
-                bad = next((e for e in t.succ if e.kind == ("true" if nt[1] else "false")), None)
-                if bad is not None and cfg.every_path_to_exit_passes(bad, resets):
-                    ok = True
+            for pol in (True, False):
+                for a_, ap in q.atoms(t.ast, pol):
+                    nt = q.is_none_test(a_)
+                    if nt is not None and norm(nt[0]) == f"self.main_streams.{part}" and nt[1] != ap:
+                        good += [e for e in t.succ if e.kind == ("true" if pol else "false")]
+        ok = all(cfg.every_path_to_exit_passes(q.node_for(f, st_), resets + good) for st_ in stores)
         ctx.check(ok, rule, f, stores[0], f"a MainStreamsInfo record without {part} is normalised (reset to None, or refused)",
                   f"Header._extract_header_info stores a MainStreamsInfo record whose `{part}` may be None (every part is optional; some writers emit an empty record for archives of "
                   f"directories and empty files): _real_get_contents, Worker.extract, test() and the append path dereference `main_streams.{part}` whenever main_streams is not None "
@@ -1322,6 +1321,7 @@ def run(ctx: Ctx) -> None:
     _c04.r04_17(ctx, rule="R06.22")  # a member / folder without a stored CRC is a valid archive
     from . import c10 as _c10
     _c10.r10_11(ctx)  # kinds as the format assigns them (is_directory), under C06 too
+    _c10.r10_13(ctx, rule="R06.24")
     shared.layout_agreement(ctx, "R06.19")
     r06_21(ctx)
     r06_18(ctx)
